@@ -30,6 +30,9 @@ type LConv struct {
 	// Guarded: the extend function used by this converter lives in a file guarded by
 	// //go:build <tag> (only visible while goverter runs).
 	Guarded bool `json:"guarded,omitempty"`
+	// GuardedDecl: the converter interface itself is declared in a file guarded by
+	// //go:build <tag>; only the types live in the unguarded file.
+	GuardedDecl bool `json:"guarded_decl,omitempty"`
 }
 
 type LSpec struct {
@@ -42,6 +45,8 @@ type LSpec struct {
 	// GuardedUser adds a user file guarded by the output constraint that references the
 	// generated identifiers of the first healthy struct-format converter.
 	GuardedUser bool `json:"guarded_user,omitempty"`
+
+	guardedDecls [][2]string
 }
 
 func (s *LSpec) tag() string {
@@ -160,6 +165,7 @@ func fieldNames(version int) (string, string, string) {
 
 // Render writes the input files of the spec.
 func (s *LSpec) Render() map[string]string {
+	s.guardedDecls = nil
 	byFile := map[string][]*LConv{}
 	var fileOrder []string
 	for i := range s.Convs {
@@ -188,6 +194,9 @@ func (s *LSpec) Render() map[string]string {
 					s.tag(), s.PkgNames[dir], c.Name, c.Name, c.Name, c.Name)
 			}
 		}
+	}
+	for _, gd := range s.guardedDecls {
+		files[gd[0]] = gd[1]
 	}
 	dirs := make([]string, 0, len(s.UserPkgs))
 	for d := range s.UserPkgs {
@@ -255,7 +264,12 @@ func (s *LSpec) renderConv(b *strings.Builder, c *LConv) {
 	if c.Defect == "methoddirective" {
 		methodDoc = "    // goverter:map\n"
 	}
-	if c.Kind == "interface" {
+	if c.Kind == "interface" && c.GuardedDecl {
+		s.guardedDecls = append(s.guardedDecls, [2]string{
+			path.Join(c.Dir, "decl_"+strings.ToLower(c.Name)+"_guarded.go"),
+			fmt.Sprintf("//go:build %s\n\npackage %s\n\n%s\ntype %s interface {\n%s    %s%s\n    %s%s\n}\n", s.tag(), s.PkgNames[c.Dir], strings.Join(lines, "\n"), n, methodDoc, c.method(0), sig0, c.method(1), sig1),
+		})
+	} else if c.Kind == "interface" {
 		fmt.Fprintf(b, "%s\ntype %s interface {\n%s    %s%s\n    %s%s\n}\n\n", strings.Join(lines, "\n"), n, methodDoc, c.method(0), sig0, c.method(1), sig1)
 	} else {
 		fmt.Fprintf(b, "%s\nvar (\n%s    %s func%s\n    %s func%s\n)\n\n", strings.Join(lines, "\n"), methodDoc, c.method(0), sig0, c.method(1), sig1)
@@ -386,6 +400,9 @@ func DrawLayout(rng *rand.Rand, nConv int, opts LayoutOpts) *LSpec {
 		}
 		if opts.Guarded && rng.IntN(4) == 0 {
 			c.Guarded = true
+		}
+		if opts.Guarded && c.Kind == "interface" && rng.IntN(4) == 0 {
+			c.GuardedDecl = true
 		}
 		s.Convs = append(s.Convs, c)
 	}
